@@ -12,16 +12,16 @@ open Lungo.C10
 #print axioms ne_agrees
 #print axioms in_agrees
 #print axioms nin_agrees
-#print axioms exists_agrees_partial
-#print axioms type_agrees_partial
-#print axioms type_null_matches_missing
+#print axioms exists_agrees
+#print axioms type_agrees
+#print axioms type_null_skips_missing
 #print axioms size_agrees_partial
 #print axioms all_agrees_partial
 #print axioms mod_agrees
 #print axioms bits_agrees
 #print axioms operator_agrees
 #print axioms not_agrees
-#print axioms elemMatch_agrees_partial
+#print axioms elemMatch_agrees
 #print axioms and_or_agree
 #print axioms nor_agrees
 #print axioms match_agrees_core_partial
